@@ -571,6 +571,18 @@ func vScenarioC12(rc *runCtx) {
 				return "", false
 			}
 		}
+		if typ == "CFG" && !shaped {
+			// a configuration that announces enormous chunks (as the hugeBuf campaign does on purpose)
+			if raw, err := vDecode(np); err == nil {
+				var m map[string]any
+				if json.Unmarshal(raw, &m) == nil {
+					// (a non-positive announcement is taken as the protocol's maximum, 1 GiB, by the receiver's bound)
+					if b, ok := m["bufsize"].(float64); ok && (b >= 1<<30 || b <= 0) {
+						hugeAnnounced = true
+					}
+				}
+			}
+		}
 		fired++
 		rc.fault("hostile-" + typ)
 		if shaped {
